@@ -114,6 +114,18 @@ class Ctx:
             parts = [self.tr(v) for v in t[1]]
             f = self.uf("tuple%d" % len(parts), [s for _, s in parts], "V")
             return "(" + f + " " + " ".join(x for x, _ in parts) + ")", "V"
+        if k == "closure":
+            parts = [(n,) + self.tr(v) for n, v in sorted(t[2].items())]
+            name = "closure_" + t[1]
+            if not parts:
+                return self.sym(name, "V"), "V"
+            f = self.uf(name, [s for _, _, s in parts], "V")
+            return "(" + f + " " + " ".join(x for _, x, _ in parts) + ")", "V"
+        if k == "downcast":
+            b, bs = self.tr(t[1])
+            return f"({self.uf('as_' + t[2], [bs], 'V')} {b})", "V"
+        if k == "mutref":
+            return self.sym("ref_" + t[1], "V"), "V"
         if k == "upd":
             b, bs = self.tr(t[1])
             v, vs = self.tr(t[3])
@@ -122,13 +134,13 @@ class Ctx:
 
     RET = {
         "StrategiesInfo::regret": "F", "StrategiesInfo::player_utility": "F", "StrategiesInfo::player_regret": "F",
-        "eq": "Bool", "ends_with": "Bool",
+        "eq": "Bool", "ends_with": "Bool", "sum::<f64>": "F", "f64>::max": "F",
     }
 
     def ret_sort(self, fname):
         s = short(fname)
         for k, v in self.RET.items():
-            if s == k or s.endswith("::" + k) or re.search(r"::" + re.escape(k) + r"(::<.*>)?$", s):
+            if s == k or s.endswith("::" + k) or s.endswith(k) or re.search(r"::" + re.escape(k) + r"(::<.*>)?$", s):
                 return v
         return "V"
 
